@@ -26,6 +26,7 @@ import (
 	"sort"
 	"strings"
 	"sync"
+	"sync/atomic"
 	"time"
 
 	commonmodels "github.com/lindb/common/models"
@@ -139,6 +140,18 @@ type xcluster struct {
 	AfterPlan bool
 	rootCtx   *waitingCtx
 
+	// Withhold: storage node -> its response of the running query is NOT handed to the root before the deadline of the
+	// request (a hung or slow node, a lost response); needs AfterPlan. The other responses of the batch are handed over
+	// in the wanted order, each completely handled by the root (inline pool); then the harness lets the deadline of the
+	// query's context pass (waitingCtx.fire: the deadline is harness-owned, no duration is waited for). Late: the
+	// withheld responses reach the root's task manager after the query returned (a slow node), otherwise never.
+	Withhold map[string]bool
+	Late     bool
+	withheld []heldResp
+	// the task contexts of the requests brokers are processing (intermediate nodes): like the root's, their deadline is
+	// harness-owned and they notice when the node starts to wait for its leaf responses
+	midCtx map[string]*waitingCtx
+
 	// Order decides in which order the buffered responses of one request are released to the
 	// receiver (nil: canonical order = sorted by sender name).
 	Order func(receiver string, arrived []string) []string
@@ -163,6 +176,11 @@ type xcluster struct {
 	Panics   []string // panics while a receiver handled a response
 	splitSeq int
 	Plans    []string // physical plans the production state manager chose (State != nil)
+}
+
+type heldResp struct {
+	receiver string
+	p        pendingResp
 }
 
 type pendingResp struct {
@@ -353,6 +371,20 @@ func (t *xtransport) SendRequest(target string, req *protoCommonV1.TaskRequest) 
 	}
 	back := &xstream{c: c, to: t.self, from: target}
 	taskCtx := flow.NewTaskContextWithTimeout(context.Background(), c.Timeout)
+	if _, isBroker := c.brokers[target]; isBroker {
+		// what flow.NewTaskContextWithTimeout builds, with the harness between the deadline and the processor
+		tctx, cancel := context.WithTimeout(context.Background(), c.Timeout)
+		dctx, expire := context.WithCancel(tctx)
+		w := &waitingCtx{Context: dctx, waiting: make(chan struct{}), expire: expire}
+		taskCtx.Cancel()
+		taskCtx = &flow.TaskContext{Ctx: w, Cancel: func() { expire(); cancel() }, Start: time.Now()}
+		c.mu.Lock()
+		if c.midCtx == nil {
+			c.midCtx = map[string]*waitingCtx{}
+		}
+		c.midCtx[target] = w
+		c.mu.Unlock()
+	}
 	// query.TaskHandler.process: run on a pool; an error or a panic becomes an error response on the requester's stream
 	sendErr := func(err error) {
 		_ = back.Send(&protoCommonV1.TaskResponse{RequestID: req.RequestID, Completed: true, ErrMsg: err.Error()})
@@ -503,9 +535,37 @@ func (c *xcluster) deliver(receiver string, resp *protoCommonV1.TaskResponse, fr
 	if c.AfterPlan {
 		c.waitPlanSent(receiver, resp.RequestID)
 	}
+	c.mu.Lock()
+	withhold := c.Withhold
+	c.mu.Unlock()
+	held := false
 	for _, n := range order {
+		if withhold[n] {
+			c.mu.Lock()
+			c.withheld = append(c.withheld, heldResp{receiver, byName[n]})
+			c.mu.Unlock()
+			held = true
+			continue
+		}
 		c.handOver(receiver, byName[n])
 	}
+	if held {
+		// every other response has been handled by the receiver: now the deadline of the request passes
+		if w := c.ctxOf(receiver); w != nil {
+			w.fire()
+		}
+	}
+}
+
+// ctxOf: the context in which the receiver executes the running query (the root's, or the task context of an
+// intermediate node).
+func (c *xcluster) ctxOf(receiver string) *waitingCtx {
+	c.mu.Lock()
+	defer c.mu.Unlock()
+	if w, ok := c.midCtx[receiver]; ok {
+		return w
+	}
+	return c.rootCtx
 }
 
 // waitPlanSent returns when the root of the running query has sent its plan and is waiting for the responses (the
@@ -513,9 +573,7 @@ func (c *xcluster) deliver(receiver string, resp *protoCommonV1.TaskResponse, fr
 // waitResponse, see waitingCtx). A condition is awaited, no duration is assumed (the deadline only reports a stuck
 // harness).
 func (c *xcluster) waitPlanSent(receiver, requestID string) {
-	c.mu.Lock()
-	w := c.rootCtx
-	c.mu.Unlock()
+	w := c.ctxOf(receiver)
 	if w == nil {
 		return
 	}
@@ -525,7 +583,7 @@ func (c *xcluster) waitPlanSent(receiver, requestID string) {
 	case <-w.waiting:
 	case <-timer.C:
 		c.mu.Lock()
-		c.Stuck = append(c.Stuck, fmt.Sprintf("the root did not start to wait for the responses of request %s within %s", requestID, c.Timeout))
+		c.Stuck = append(c.Stuck, fmt.Sprintf("%s did not start to wait for the responses of request %s within %s", receiver, requestID, c.Timeout))
 		c.mu.Unlock()
 	}
 }
@@ -537,6 +595,22 @@ type waitingCtx struct {
 	context.Context
 	once    sync.Once
 	waiting chan struct{}
+	// the deadline of the request is owned by the harness: fire() lets it pass (Done is closed, Err reports
+	// context.DeadlineExceeded), whatever the wall clock says
+	expire context.CancelFunc
+	fired  atomic.Bool
+}
+
+func (w *waitingCtx) fire() {
+	w.fired.Store(true)
+	w.expire()
+}
+
+func (w *waitingCtx) Err() error {
+	if err := w.Context.Err(); err != nil && w.fired.Load() {
+		return context.DeadlineExceeded
+	}
+	return w.Context.Err()
 }
 
 func (w *waitingCtx) Done() <-chan struct{} {
@@ -578,9 +652,13 @@ func (c *xcluster) Query(root, db, sqlText string) (*commonmodels.ResultSet, err
 	c.mu.Unlock()
 	tctx, cancel := context.WithTimeout(context.Background(), c.Timeout)
 	defer cancel()
-	ctx := &waitingCtx{Context: tctx, waiting: make(chan struct{})}
+	dctx, expire := context.WithCancel(tctx)
+	defer expire()
+	ctx := &waitingCtx{Context: dctx, waiting: make(chan struct{}), expire: expire}
 	c.mu.Lock()
 	c.rootCtx = ctx
+	c.withheld = nil
+	c.midCtx = nil
 	c.mu.Unlock()
 	// every response of a scheduled delivery has reached its receiver (or was refused by it) before the
 	// query is over for the harness, whatever the root made of them
@@ -593,6 +671,16 @@ func (c *xcluster) Query(root, db, sqlText string) (*commonmodels.ResultSet, err
 		TaskMgr:      b.taskMgr,
 		TransportMgr: &xtransport{c: c, self: b.name},
 	})
+	c.mu.Lock()
+	late := c.withheld
+	c.withheld = nil
+	c.mu.Unlock()
+	if c.Late {
+		// the slow node's answer arrives when the query is over
+		for _, h := range late {
+			c.handOver(h.receiver, h.p)
+		}
+	}
 	if err != nil {
 		return nil, err
 	}
